@@ -59,7 +59,10 @@ impl HttpOutcome {
 pub enum AppRes { Installed, Deferred, Failed(u32) }
 
 #[derive(Clone, Debug)]
-pub enum Step { Fire(usize), Ctl(usize, bool) } // ctl id, on-demand?
+pub enum Step { Fire(usize), Ctl(usize, bool),
+    /// from ONE handle instance: a request whose future is dropped after its first poll (id1 ≥ 900000: nobody waits for the
+    /// reply), then at once a second request (id2) that is awaited — it arrives while the first is being served
+    CtlPair(usize, bool, usize, bool) }
 
 #[derive(Clone, Debug, Default)]
 pub struct UnitEnv {
